@@ -6,6 +6,7 @@
 //	R2  statements touching X.values / X.types of a     -> preceded by simrt.Access(&X.<mutex>, isWrite, "file:line")   (env)
 //	    scope that is not a fresh local
 //	R3  go F(a...)                                      -> { f:=F; x:=a...; simrt.Go(func(){ f(x...) }) }   (env, vm)
+//	R4  reflect.Select(cases)                           -> simrt.Select(cases): ties among ready cases are decided by the case's choice list
 //
 // All insertions stay on the original line so positions in panics and in
 // lockset reports are those of the shipped source.
@@ -35,6 +36,7 @@ type report struct {
 	MutexTypes    int                 `json:"mutex_types_rewritten"`
 	AccessProbes  int                 `json:"access_probes_inserted"`
 	GoStmts       int                 `json:"go_statements_rewritten"`
+	Selects       int                 `json:"reflect_select_calls_rewritten"`
 	Unrewritten   []string            `json:"unrewritten_sync_sites"`
 	Files         map[string]int      `json:"edits_per_file"`
 	AccessSites   []string            `json:"access_sites"`
@@ -197,6 +199,13 @@ func (rw *rewriter) rewrite() {
 			return true
 		}
 		switch x.Name {
+		case "reflect":
+			if se.Sel.Name == "Select" {
+				// R4: the runtime's random choice among ready select cases goes behind the simulator's seam
+				rw.edits = append(rw.edits, edit{rw.off(se.Pos()), rw.off(se.End()), "simrt.Select"})
+				rw.rep.Selects++
+				rw.usesSim = true
+			}
 		case "sync":
 			if se.Sel.Name == "RWMutex" || se.Sel.Name == "Mutex" {
 				rw.edits = append(rw.edits, edit{rw.off(se.Pos()), rw.off(se.End()), "simrt." + se.Sel.Name})
